@@ -25,8 +25,24 @@ from pathlib import Path
 HERE = Path(__file__).resolve().parent
 sys.path.insert(0, str(HERE))
 
-CLIENTS = ["c1", "c2", "c3"]
-LAYOUTS = ["core", "shared.core", "a.b.core", "a.b.c.core", "c1.core", "c1.x.core"]
+# client output packages of depth 1..3; within one family no client package is inside another
+FAMILIES = {
+    "top": ["c1", "c2", "c3"],
+    "nested2": ["clients.alpha", "clients.beta", "clients.gamma"],
+    "nested3": ["x.y.alpha", "x.y.beta", "x.z.gamma"],
+    "mixed": ["c1", "clients.alpha", "x.y.gamma"],
+}
+ALL_CLIENTS = sorted({c for v in FAMILIES.values() for c in v})
+# (client family, core package): top-level / one / two / three levels deep, a sibling inside the clients' parent
+# package, a core inside one client's package (embedded), a core in an ancestor package of the clients
+LAYOUTS = [
+    ("top", "core"), ("top", "shared.core"), ("top", "a.b.core"), ("top", "a.b.c.core"), ("top", "c1.core"),
+    ("top", "c1.x.core"),
+    ("nested2", "core"), ("nested2", "clients.core"), ("nested2", "clients.shared.core"),
+    ("nested2", "clients.alpha.core"),
+    ("nested3", "x.core"), ("nested3", "x.y.core"), ("nested3", "shared.core"),
+    ("mixed", "clients.core"), ("mixed", "core"), ("mixed", "x.y.gamma.core"),
+]
 # three base specs (declared statuses) + a pool for "changing specs"
 BASE_SPECS = [[200, 404], [201, 409, 422], [200, 404, 500, 503]]
 POOL = [400, 404, 409, 422, 500, 503]
@@ -40,7 +56,8 @@ TRUSTED = [
     "_generate_for_codes, the error-import rule of the response handler generator and the diff/direct decision "
     "(incl. rmtree) of ClientGenerator.generate — tied to the code by this run's histories",
     "CPython import system (fresh interpreter per step) as the judge of 'still imports'",
-    "status codes are three-digit; clients are top-level packages c1..c3; specs are valid and have one or two operations",
+    "status codes are three-digit; client output packages are one to three levels deep and none lies inside another; "
+    "specs are valid and have one or two operations",
 ]
 
 
@@ -78,19 +95,22 @@ def gen_codes(rng) -> list[int]:
     return sorted(rng.sample(POOL, rng.randint(1, 3)) + [rng.choice([200, 201])])
 
 
-def gen_history(rng, core: str, max_steps: int) -> dict:
+def gen_history(rng, layout: tuple[str, str], max_steps: int) -> dict:
+    fam, core = layout
     n = rng.randint(2, max_steps)
     nclients = rng.choice([2, 2, 3])
+    pool = FAMILIES[fam][:nclients] if rng.random() < 0.5 else rng.sample(FAMILIES[fam], nclients)
     steps = []
     for _ in range(n):
-        steps.append({"client": rng.choice(CLIENTS[:nclients]), "codes": gen_codes(rng),
-                      "force": rng.random() < 0.6})
+        steps.append({"client": rng.choice(pool), "codes": gen_codes(rng), "force": rng.random() < 0.6})
     return {"core": core, "steps": steps}
 
 
-def enum_two_step(core: str) -> list[dict]:
-    """all 2-step histories over clients {c1,c2} x two base specs x force"""
-    calls = [{"client": c, "codes": s, "force": f} for c in CLIENTS[:2] for s in BASE_SPECS[:2] for f in (True, False)]
+def enum_two_step(layout: tuple[str, str]) -> list[dict]:
+    """all 2-step histories over the first two clients of the family x two base specs x force"""
+    fam, core = layout
+    calls = [{"client": c, "codes": s, "force": f} for c in FAMILIES[fam][:2] for s in BASE_SPECS[:2]
+             for f in (True, False)]
     return [{"core": core, "steps": [dict(a), dict(b)]} for a, b in itertools.product(calls, calls)]
 
 
@@ -130,7 +150,7 @@ def main(arg):
 def _core_imports(root: Path, client: str, core_pkg: str) -> list[str]:
     """names that the client's modules import from the core package itself (`from <core> import X`)"""
     names: set[str] = set()
-    cdir = root / client
+    cdir = root / client.replace(".", "/")
     core_dir = root / core_pkg.replace(".", "/")
     for p in sorted(cdir.rglob("*.py")):
         if core_dir in p.parents:
@@ -180,8 +200,8 @@ def run_history(hist: dict) -> dict:
                 aliases = [name2code.get(n, 0) for n in alias_names]
             clients = []
             needs = {}
-            for c in CLIENTS:
-                if (root / c / "client.py").exists():
+            for c in ALL_CLIENTS:
+                if (root / c.replace(".", "/") / "client.py").exists():
                     needs[c] = _core_imports(root, c, core_pkg)
                     clients.append([c, sorted({name2code.get(n, 0) for n in needs[c]})])
             imp = {}
@@ -258,8 +278,11 @@ def oracle(case: dict) -> list[str]:
 
 # ---------------------------------------------------------------- Coq printers
 def layout_of(core: str) -> tuple[int, str | None]:
+    """(number of components of the core package, the client package whose directory contains the core)"""
     parts = core.split(".")
-    return len(parts), (parts[0] if parts[0] in CLIENTS else None)
+    inside = [c for c in ALL_CLIENTS if parts[:len(c.split("."))] == c.split(".")]
+    assert len(inside) <= 1
+    return len(parts), (inside[0] if inside else None)
 
 
 def c_case(case: dict) -> str:
@@ -291,10 +314,10 @@ def main(chk, replay: dict | None = None) -> int:
     rng = chk.rng
     max_steps = 6 if chk.thorough else 4
     inputs = [c["input"] for c in load_corpus("C11")]
-    for core in LAYOUTS:
-        en = enum_two_step(core)
-        inputs += en if chk.thorough else rng.sample(en, 10)
-        inputs += [gen_history(rng, core, max_steps) for _ in range(80 if chk.thorough else 14)]
+    for lay in LAYOUTS:
+        en = enum_two_step(lay)
+        inputs += en if chk.thorough else rng.sample(en, 4)
+        inputs += [gen_history(rng, lay, max_steps) for _ in range(40 if chk.thorough else 6)]
     cases = run_parallel(inputs)
     for c in cases:
         c["oracle_fail"] = oracle(c)
@@ -306,7 +329,8 @@ def main(chk, replay: dict | None = None) -> int:
             "calls_raising": 0, "repeated_client": 0, "oracle_failures": 0, "impl_source": IMPL_SRC}
     for c in cases:
         h = c["input"]
-        dist["by_layout"][h["core"]] = dist["by_layout"].get(h["core"], 0) + 1
+        lk = h["core"] + " | clients depth " + "/".join(sorted({str(len(st["client"].split("."))) for st in h["steps"]}))
+        dist["by_layout"][lk] = dist["by_layout"].get(lk, 0) + 1
         k = str(len(h["steps"]))
         dist["by_length"][k] = dist["by_length"].get(k, 0) + 1
         dist["force_calls"] += sum(1 for s in h["steps"] if s["force"])
@@ -327,7 +351,7 @@ def main(chk, replay: dict | None = None) -> int:
                "observed on disk after every generate call")
     return chk.finish(TRUSTED,
                       rule="corpus + sampled/all 2-step histories + seeded random histories (2..4 quick / 2..6 thorough calls; "
-                           "clients c1..c3, three base specs + random code sets, force on/off) per core layout; "
+                           "client packages of depth 1..3, three base specs + random code sets, force on/off) per core layout; "
                            "evaluations = generate calls; non-trivial = >= 2 calls over >= 2 distinct clients; distinct by JSON")
 
 
